@@ -148,8 +148,12 @@ func randProg(r *rand.Rand) sysProg {
 		idx.Body.Keys = []vkey{{Key: "even", When: whenMod(2, 0)}, {Key: "t3", When: whenMod(3, 0)}, {Key: "rare", When: whenMod(7, 5)}}
 		p = append(p, idx)
 	}
+	replaySensitive := r.Intn(3) == 0 // store operations that often change nothing + a deltas reader (cached operation-log replay)
 	mkStore := func(name string, inputs []ainput, valTerms []vterm) sysMod {
 		ps := polSpecs[r.Intn(len(polSpecs))]
+		if replaySensitive && name == "st1" {
+			ps = polSpecs[1] // set_if_not_exists: most writes hit an existing key and produce no delta
+		}
 		vt := ps.vts[r.Intn(len(ps.vts))]
 		m := sysMod{Name: name, Kind: "store", Init: inits[r.Intn(len(inits))], Inputs: inputs, Filter: []any{}}
 		if inputs[0].K == "map" && m.Init < src.Init {
@@ -165,7 +169,7 @@ func randProg(r *rand.Rand) sysProg {
 			}
 			m.Body.Ops = append(m.Body.Ops, o)
 		}
-		if r.Intn(3) == 0 {
+		if r.Intn(3) == 0 || (replaySensitive && name == "st1") {
 			m.Body.Ops = append(m.Body.Ops, vop{Op: "del", Ord: uint64(r.Intn(3)), Pfx: []string{"a", "ab", "b", ""}[r.Intn(4)], Val: []vterm{}, When: whenMod(7, uint64(r.Intn(7)))})
 		}
 		return m
@@ -184,15 +188,20 @@ func randProg(r *rand.Rand) sysProg {
 	has2 := r.Intn(2) == 0
 	var st2 sysMod
 	if has2 {
-		mode := []string{"get", "deltas"}[r.Intn(2)]
+		mode := []string{"get", "deltas", "none"}[r.Intn(3)]
 		var vt []vterm
-		if mode == "get" {
+		if mode == "none" { // independent of st1: both stores are in the SAME stage
+			st2 = mkStore("st2", []ainput{{K: "map", V: "m_src"}}, []vterm{{T: "in", I: 0, C: 2}, {T: "const", C: 3}})
+			p = append(p, st2)
+		} else if mode == "get" {
 			vt = []vterm{{T: "get", I: 1, C: 1, Key: vmKeys[r.Intn(4)], How: "last", Num: num1}, {T: "in", I: 0, C: 1}, {T: "const", C: 1}}
 		} else {
 			vt = []vterm{{T: "dcount", I: 1, C: 1}, {T: "dsum", I: 1, C: 1, Num: num1}, {T: "in", I: 0, C: 1}}
 		}
-		st2 = mkStore("st2", []ainput{{K: "map", V: "m_src"}, {K: "store", V: "st1", Mode: mode}}, vt)
-		p = append(p, st2)
+		if mode != "none" {
+			st2 = mkStore("st2", []ainput{{K: "map", V: "m_src"}, {K: "store", V: "st1", Mode: mode}}, vt)
+			p = append(p, st2)
+		}
 	}
 	out := sysMod{Name: "out", Kind: "map", Init: []uint64{0, 0, 3, 5, 12}[r.Intn(5)], Filter: []any{}}
 	out.Body = body0("map")
@@ -207,6 +216,9 @@ func randProg(r *rand.Rand) sysProg {
 	}
 	pos := len(out.Inputs)
 	mode1 := []string{"get", "get", "deltas"}[r.Intn(3)]
+	if replaySensitive {
+		mode1 = "deltas"
+	}
 	out.Inputs = append(out.Inputs, ainput{K: "store", V: "st1", Mode: mode1})
 	if mode1 == "get" {
 		how := []string{"last", "first", "at"}[r.Intn(3)]
@@ -266,6 +278,7 @@ func finalID(n uint64) string { return strconv.FormatUint(n, 10) + "a" }
 type linearStream struct {
 	h          bstream.Handler
 	start, end uint64
+	bareFinal  bool // emit StepIrreversible (as the live hub does behind the final-blocks filter) instead of new+irreversible
 	onBlock    func(p *pipeline.Pipeline, num uint64, id string)
 }
 
@@ -291,6 +304,9 @@ func (s *linearStream) Run(ctx context.Context) error {
 		ref := bstream.NewBlockRef(blk.Id, n)
 		// a block that is new AND final: its cursor designates itself as the last final block (what the file source emits)
 		obj := &stepObj{step: bstream.StepNewIrreversible, cursor: &bstream.Cursor{Step: bstream.StepNewIrreversible, Block: ref, LIB: ref, HeadBlock: ref}}
+		if s.bareFinal {
+			obj = &stepObj{step: bstream.StepIrreversible, cursor: &bstream.Cursor{Step: bstream.StepIrreversible, Block: ref, LIB: ref, HeadBlock: ref}}
+		}
 		if err := s.h.ProcessBlock(blk, obj); err != nil {
 			if errors.Is(err, io.EOF) {
 				return io.EOF
@@ -317,6 +333,7 @@ type runCfg struct {
 	Order   int64  `json:"order"`  // seed of the job completion order (0 = as they come)
 	Cursor  string `json:"cursor"` // "" or "resume:<index of the delivered block whose cursor is used>"
 	Label   string `json:"label"`
+	Final   bool   `json:"finalonly"` // final_blocks_only request; the source then emits bare irreversible steps
 }
 
 type respRec struct {
@@ -348,6 +365,7 @@ type sysEnv struct {
 	prog   sysProg
 	mods   *pbsubstreams.Modules
 	hashes map[string]string // module identifier -> module name
+	seen   map[string]bool   // every file ever seen in the state store
 }
 
 func newSysEnv(dir string, prog sysProg) *sysEnv {
@@ -361,6 +379,27 @@ func newSysEnv(dir string, prog sysProg) *sysEnv {
 }
 
 var schedMu sync.Mutex
+
+var seenMu sync.Mutex
+
+// captureFiles remembers every file ever seen in the scenario's state store (name and content): the universe the cache
+// subsets are drawn from includes files of intermediate moments, e.g. partial stores that the squasher deletes later.
+func captureFiles(env *sysEnv) {
+	seenMu.Lock()
+	defer seenMu.Unlock()
+	if env.seen == nil {
+		env.seen = map[string]bool{}
+	}
+	for _, f := range listFiles(env.dir) {
+		if strings.HasSuffix(f, ".tmp") || env.seen[f] {
+			continue
+		}
+		if b, err := os.ReadFile(filepath.Join(env.dir, f)); err == nil {
+			fileVault[env.dir+"|"+f] = b
+			env.seen[f] = true
+		}
+	}
+}
 
 func listFiles(dir string) []string {
 	out := []string{}
@@ -457,6 +496,7 @@ func (w *gatedWorker) Work(ctx context.Context, unit stage.Unit, startBlock uint
 		if err != nil {
 			return work.MsgJobFailed{Unit: unit, Error: fmt.Errorf("tier2 job %d/%d: %w", unit.Stage, unit.Segment, err)}
 		}
+		captureFiles(w.env) // files as they are when a job has just finished (partials are deleted later by the squasher)
 		w.gate.arrive(fmt.Sprintf("%d:%d", unit.Stage, unit.Segment))
 		return work.MsgJobSucceeded{Unit: unit, Worker: w}
 	}
@@ -485,9 +525,9 @@ func runTier1(env *sysEnv, cfg runCfg, cursor string, traceSched bool) (obs runO
 	}
 	var lastPipe *pipeline.Pipeline
 	svc := service.TestNewService(rc, lib, func(ctx context.Context, h bstream.Handler, start int64, stop uint64, _ string, _ bool, _ bool, _ *zap.Logger, _ ...bsstream.Option) (service.Streamable, error) {
-		return &linearStream{h: h, start: uint64(start), end: stop, onBlock: func(p *pipeline.Pipeline, num uint64, id string) { lastPipe = p }}, nil
+		return &linearStream{h: h, start: uint64(start), end: stop, bareFinal: cfg.Final, onBlock: func(p *pipeline.Pipeline, num uint64, id string) { lastPipe = p }}, nil
 	})
-	req := &pbsubstreamsrpc.Request{StartBlockNum: cfg.Start, StopBlockNum: cfg.Stop, ProductionMode: cfg.Prod, OutputModule: "out", Modules: env.mods, StartCursor: cursor}
+	req := &pbsubstreamsrpc.Request{StartBlockNum: cfg.Start, StopBlockNum: cfg.Stop, ProductionMode: cfg.Prod, OutputModule: "out", Modules: env.mods, StartCursor: cursor, FinalBlocksOnly: cfg.Final}
 	var mu sync.Mutex
 	collect := func(resp substreams.ResponseFromAnyTier) error {
 		r, ok := resp.(*pbsubstreamsrpc.Response)
@@ -603,6 +643,7 @@ func randCfg(r *rand.Rand, p sysProg, seg uint64) runCfg {
 	if r.Intn(2) == 0 {
 		c.Order = r.Int63n(1<<30) + 1
 	}
+	c.Final = r.Intn(4) == 0
 	return c
 }
 
@@ -646,12 +687,36 @@ func runSystem(a *args) error {
 			cfg.Prod = true
 			cfg.Label = "subsets/full"
 			emitRun(a, env, cfg, "", false)
+			captureFiles(env)
 			all := listFiles(env.dir)
+			for f := range env.seen {
+				all = unionFiles(all, []string{f})
+			}
 			for k := 0; k < 4; k++ {
 				keep := map[string]bool{}
 				for _, f := range all {
 					if r.Intn(2) == 0 {
 						keep[f] = true
+					}
+				}
+				if k >= 2 {
+					// structured subsets: per store module keep ONLY partial snapshots or ONLY full snapshots (alternating by
+					// module, flipped between the two variants): what a crash in the middle of a multi-store squash leaves
+					for _, fr := range projectFiles(env, all) {
+						_ = fr
+					}
+					mods := map[string]int{}
+					for _, f := range all {
+						parts := strings.Split(f, "/")
+						if len(parts) < 4 || parts[2] != "states" {
+							continue
+						}
+						if _, ok := mods[parts[1]]; !ok {
+							mods[parts[1]] = len(mods)
+						}
+						wantPartial := (mods[parts[1]]+k)%2 == 0
+						isPartial := strings.Contains(parts[3], ".partial")
+						keep[f] = wantPartial == isPartial
 					}
 				}
 				resetDir(env.dir, all, keep, r)
